@@ -272,8 +272,11 @@ def main():
     json.dump(evidence, open(os.path.join(HERE, "evidence", f"{pid}.json"), "w"), indent=1, default=str)
 
     # ---- verdict -------------------------------------------------------------------------------------------
+    seen_kf = {}
     for kf, ob in known_hits:
-        print(f"KNOWN-FINDING: property={pid} {kf['id']}: {kf['what']} [{ob['name']}]")
+        seen_kf.setdefault(kf["id"], [kf, []])[1].append(ob["name"])
+    for kid, (kf, names) in seen_kf.items():
+        print(f"KNOWN-FINDING: property={pid} {kid}: {kf['what']} [{len(names)} obligation(s)/case(s), e.g. {names[0]}]")
     print(f"{pid}: {n_proved}/{n_ob} obligations proved ({backends}), {len(undecided)} undecided, "
           f"{len(violations)} violations, {len(known_hits)} known; rt={[(r.get('name'), r.get('evaluations')) for r in rt_results]}; {wall:.1f}s")
     if a.verbose:
